@@ -201,7 +201,7 @@ pub fn seam_containment(out: &RunOut, check_reads: bool, check_mutations: bool) 
         if !ev.lib {
             continue;
         }
-        if check_reads && ev.nr == libc::SYS_readlinkat && ev.answer == crate::sup::Answer::Continue {
+        if check_reads && ev.nr == libc::SYS_readlinkat && ev.executed() {
             if let Some(d) = &ev.dir {
                 if let Prov::Tree(Zone::Outside, name) = &d.prov {
                     if d.ftype == libc::S_IFLNK || ev.path.as_deref().map(|p| !p.is_empty()).unwrap_or(false) {
@@ -210,7 +210,7 @@ pub fn seam_containment(out: &RunOut, check_reads: bool, check_mutations: bool) 
                 }
             }
         }
-        if check_mutations && is_mutating(ev) && ev.answer == crate::sup::Answer::Continue {
+        if check_mutations && is_mutating(ev) && ev.executed() {
             let two = matches!(ev.nr, libc::SYS_linkat | libc::SYS_renameat | libc::SYS_renameat2);
             let mut dirs = vec![ev.dir.as_ref()];
             if two {
